@@ -214,6 +214,9 @@ func (e *Engine) loadContracts() error {
 			e.externs[fc.Ref] = fc
 			e.externPkg[fc] = nil
 		}
+		for _, s := range cf.Specs {
+			e.specs["std."+s.Name] = &specInfo{c: s, pkg: nil}
+		}
 	}
 	var repoPkgs []*packages.Package
 	packages.Visit(e.Pkgs, nil, func(p *packages.Package) {
